@@ -1,6 +1,9 @@
 package main
 
 import (
+	"bytes"
+	"context"
+	"github.com/ddddddO/gtree"
 	"os"
 	"path/filepath"
 	"strings"
@@ -125,6 +128,20 @@ func runC06(ctx *Ctx) *Report {
 	rep.Exhaustive = true
 	rep.Notes = append(rep.Notes, "every forest ≤ "+itoa(n)+" nodes with distinct roots over {a, b.go, Makefile} × rotating extension lists × target states")
 	runCases(rep, cases, ctx.Workers, func(c Case) bool { return len(c.Doc) > 24 })
+	// more roots than the pipeline has workers, with the massive option: every root is created
+	{
+		var many []*Tree
+		for i := 0; i < 45; i++ {
+			many = append(many, &Tree{Name: "r" + fmtInt(i), Kids: []*Tree{{Name: "a", Kids: []*Tree{{Name: "b.go"}}}, {Name: "Makefile"}, {Name: "d" + fmtInt(i%4)}}})
+		}
+		for rep2 := 0; rep2 < 3; rep2++ {
+			doc := spell(many[:12+16*rep2+1], plainSpelling)
+			c := newCase("massive-mkdir")
+			c.Massive, c.Doc, c.DocText, c.Exts, c.Target = true, hx(doc), "<many roots>", extLists[rep2%len(extLists)], "t"
+			rep.Record(c, caseKey(c), true, runMassiveMkdir(c))
+			rep.Count("massive-mkdir/many-roots")
+		}
+	}
 	// the command line hands the extension list over as given: `gtree mkdir -e …` creates what the model says
 	// for that list (whole-name suffixes such as Makefile, overlapping suffixes, none)
 	{
@@ -171,7 +188,7 @@ func parseDocTree(doc string) *Tree {
 	return stack[0]
 }
 
-var hostilePathNames = []string{"..", ".", "a/b", "/x", "x/", "../..", "../../../evil", "a/../../b", "\xff", "ok", "...", "..a", "a\\b", "con", " ", "x\x00y", "./x", ".//x", "./", "x/."}
+var hostilePathNames = []string{"/", "//", "/.", "./.", "/..", "\\", "..", ".", "a/b", "/x", "x/", "../..", "../../../evil", "a/../../b", "\xff", "ok", "...", "..a", "a\\b", "con", " ", "x\x00y", "./x", ".//x", "./", "x/."}
 
 func runC07(ctx *Ctx) *Report {
 	rep := NewReport("C07")
@@ -421,6 +438,41 @@ func runC08(ctx *Ctx) *Report {
 		rep.Record(c, caseKey(c), len(c.Doc) > 24, diffs)
 		rep.Count("rel:mkdir-then-verify")
 	})
+	// many roots verified at once with the massive option: a directory that matches verifies (strictly too),
+	// one missing leaf is reported – the roots are independent of each other
+	{
+		var many []*Tree
+		for i := 0; i < 40; i++ {
+			t := &Tree{Name: "r" + fmtInt(i)}
+			for j := 0; j < 30; j++ {
+				t.Kids = append(t.Kids, &Tree{Name: "k" + fmtInt(j), Kids: []*Tree{{Name: "leaf"}}})
+			}
+			many = append(many, t)
+		}
+		doc := spell(many, plainSpelling)
+		jail := newJail()
+		target := filepath.Join(jail, "t")
+		var diffs []Diff
+		if err := gtree.MkdirFromMarkdown(bytes.NewReader(doc), gtree.WithTargetDir(target)); err != nil {
+			diffs = append(diffs, Diff{What: "mkdir of 40 roots failed", Real: classify(err), Model: "nil"})
+		}
+		for r := 0; r < 4 && len(diffs) == 0; r++ {
+			opts := []gtree.Option{gtree.WithTargetDir(target), gtree.WithMassive(context.Background())}
+			if r%2 == 1 {
+				opts = append(opts, gtree.WithStrictVerify())
+			}
+			if err := gtree.VerifyFromMarkdown(bytes.NewReader(doc), opts...); err != nil {
+				diffs = append(diffs, Diff{What: "massive verify of a matching directory (40 roots)", Real: classify(err)[:min(len(classify(err)), 300)], Model: "nil"})
+			}
+		}
+		os.RemoveAll(filepath.Join(target, "r17", "k3", "leaf"))
+		if err := gtree.VerifyFromMarkdown(bytes.NewReader(doc), gtree.WithTargetDir(target), gtree.WithMassive(context.Background())); err == nil {
+			diffs = append(diffs, Diff{What: "massive verify with one leaf missing (40 roots)", Real: "nil", Model: "an error listing r17/k3/leaf"})
+		}
+		os.RemoveAll(jail)
+		rep.Record(map[string]string{"kind": "massive-verify-many-roots"}, "massive-verify-many", true, diffs)
+		rep.Count("massive-verify/many-roots")
+	}
 	return rep
 }
 
